@@ -13,6 +13,8 @@ pub mod c09;
 pub mod c10;
 pub mod c11;
 pub mod c12;
+pub mod c13;
+pub mod c15;
 
 pub fn bind_or_die() {
     let r = crate::bind::run();
@@ -47,6 +49,8 @@ pub fn run(id: &str, tier: Tier) -> i32 {
         "C10" => { bind_or_die(); c10::run(tier) }
         "C11" => c11::run(tier),
         "C12" => { bind_or_die(); c12::run(tier) }
+        "C13" => c13::run(tier),
+        "C15" => { bind_or_die(); c15::run(tier) }
         _ => {
             eprintln!("unknown check {}", id);
             2
@@ -71,6 +75,8 @@ pub fn replay(id: &str, v: &Value) -> i32 {
         "C10" => c10::replay,
         "C11" => c11::replay,
         "C12" => c12::replay,
+        "C13" => c13::replay,
+        "C15" => c15::replay,
         _ => {
             eprintln!("no replay for {}", id);
             return 2;
